@@ -1065,6 +1065,17 @@ static void mode_copy(vf::Ctx& c)
 		else same(c, "move.onto-itself.content", g3, data);
 		c.count("move.onto-itself");
 	}
+	// a copy whose destination resolves to the source itself leaves the content where it is
+	if (c.rng.chance(0.25)) {
+		int w = (int)c.rng.below(3);
+		std::string parent = dst.substr(0, dst.rfind('/'));
+		c.op(w == 0 ? "Directory::copy(f, f)" : w == 1 ? "Directory::copy(f, its own directory)" : "File(f).copy(its own directory)");
+		if (w == 0) Directory::copy(S(dst), S(dst)); else if (w == 1) Directory::copy(S(dst), S(parent)); else File(S(dst)).copy(S(parent));
+		Bytes g4;
+		if (!posix_read(dst, g4)) c.fail("copy.onto-itself.file-lost", "the file no longer exists after a copy onto itself");
+		else same(c, "copy.onto-itself.content", g4, data);
+		c.count("copy.onto-itself");
+	}
 	c.distinct(vf::mix(vf::fnv(data), v * 2 + over));
 	if (c.want_sample() && c.idx % 41 == 2) c.sample(c.curdesc() + "; destination read with open/read equals the source bytes");
 }
